@@ -45,6 +45,8 @@ def run(ctx):
         "read-noclose": {"kind": "R", "api": "c", "mode": "continue", "limit": None, "rows": three, "close": False},
         "read-endfail": {"kind": "R", "api": "c", "mode": "raise", "limit": None, "rows": three, "close": True},
         "validate-0": {"kind": "R", "api": "v", "mode": "raise", "limit": 0, "stop": 0, "rows": clean},
+        "read-empty": {"kind": "R", "api": "c", "mode": "yield", "limit": None, "rows": [], "close": True},
+        "write-empty": {"kind": "W", "rows": [], "close": True},
         "write": {"kind": "W", "rows": [["1", "a"], ["2", "b"], ["1", "a"]], "close": True},
         "write-noclose": {"kind": "W", "rows": [["2", "a"], ["3", "c"]], "close": False},
     }
@@ -62,7 +64,7 @@ def run(ctx):
         for _ in range(3000):
             histories.append([rnd.choice(names) for _ in range(rnd.randint(5, 10))])
     ctx.exhaustive = True
-    ctx.notes["exhaustive_part"] = "all histories up to length %d over 8 operations x 2 CIDs" % maxlen
+    ctx.notes["exhaustive_part"] = "all histories up to length %d over %d operations x 2 CIDs" % (maxlen, len(names))
     scns = []
     for h in histories:
         for ci, checks in enumerate(cids):
